@@ -17,11 +17,11 @@ import (
 // point, so "byte-identical under every map iteration order" is enumerated.
 
 type c06Case struct {
-	Mode   string          `json:"mode"` // "doc" | "xorder" | "builder"
-	Target string          `json:"target,omitempty"`
-	Doc    json.RawMessage `json:"doc,omitempty"`
-	Ops    []string        `json:"ops,omitempty"` // builder history
-	Subject string         `json:"subject,omitempty"`
+	Mode    string          `json:"mode"` // "doc" | "xorder" | "builder"
+	Target  string          `json:"target,omitempty"`
+	Doc     json.RawMessage `json:"doc,omitempty"`
+	Ops     []string        `json:"ops,omitempty"` // builder history
+	Subject string          `json:"subject,omitempty"`
 }
 
 // ---- ordered JSON parsing (member order matters for the x-order oracle)
